@@ -64,7 +64,7 @@ impl<'a> Field {
 
                 if let Some(repeat_attr) = &field.attrs.repeat {
                     if ctx.field_attrs_to_repeat.is_some() && !field.attrs.stop_repeat {
-                        panic!("Previous #[repeat] instruction must be terminated with #[stop_repeat]")
+                        return Err(syn::Error::new(field.member.span(), "Previous #[repeat] instruction must be terminated with #[stop_repeat]"));
                     }
 
                     ctx.field_attrs_to_repeat = Some((field.attrs.clone(), repeat_attr.permeate));
@@ -139,7 +139,7 @@ impl<'a> Variant {
 
                 if variant.attrs.repeat.is_some() {
                     if ctx.variant_attrs_to_repeat.is_some() && !variant.attrs.stop_repeat {
-                        panic!("Previous #[repeat] instruction must be terminated with #[stop_repeat]")
+                        return Err(syn::Error::new(variant.ident.span(), "Previous #[repeat] instruction must be terminated with #[stop_repeat]"));
                     }
 
                     ctx.variant_attrs_to_repeat = Some(variant.attrs.clone());
